@@ -60,11 +60,81 @@ def _one_trace(args):
     return tr
 
 
+def crafted_instances():
+    """Deterministic scenarios around the discrete events the random campaign hits only by chance: the instant the lock
+    engages while the chain is still moving, release when the motor's net torque turns, zero / reversed duty cycle, stop
+    conditions whose sensor value EQUALS the threshold (speeds exactly zero while held), continuation and rerun of a held chain."""
+    from fractions import Fraction as F
+    motor = {'kind': 'DCMotor', 'J': F(3, 10**7), 'Tmax': F(1, 100), 'w0': F(200), 'i0': F(1, 10), 'imax': F(2)}
+    motor_nc = dict(motor, i0=None, imax=None)
+    worm = {'kind': 'WormGear', 'J': F(1, 10**7), 'teeth': 1, 'helix_deg': F(5), 'alpha_deg': F(20), 'rel': {'type': 'joint', 'arg': None}}
+    wheel = {'kind': 'WormWheel', 'J': F(1, 10**5), 'teeth': 40, 'helix_deg': F(5), 'alpha_deg': F(20), 'rel': {'type': 'worm', 'arg': F(2, 5)}}
+    wheel_free = dict(wheel, rel={'type': 'worm', 'arg': F(1, 50)})          # same stage, not self-locking
+    out_gear = {'kind': 'SpurGear', 'J': F(1, 10**5), 'teeth': 20, 'rel': {'type': 'joint', 'arg': None}}
+    dt = F(1, 100)
+
+    def ld(c0=0, c1=0, c3=0, ts=10**9, cs=0):
+        return {'c0': F(c0), 'c1': F(c1), 'c2': F(0), 'c3': F(c3), 'ts': F(ts), 'cs': F(cs)}
+
+    def const(start, dur, val):
+        return {'type': 'const', 'start': F(start), 'dur': F(dur), 'val': F(val)}
+
+    def sched(n, spd0=0, ctrl=None, stop=None, more=()):
+        ops = [{'op': 'set_initial', 'pos': F(0), 'spd': F(spd0)}, {'op': 'new_solver', 'sid': 1},
+               {'op': 'run', 'sid': 1, 'dt': dt, 'T': dt * n, 'dt_unit': 'sec', 'T_unit': 'sec'}]
+        if ctrl is not None:
+            ops[2]['ctrl'] = ctrl
+        if stop is not None:
+            ops[2]['stop'] = stop
+        return ops + list(more)
+    out = []
+    sl = [motor, worm, wheel, out_gear]
+    # overload from rest: held from the second instant on; stop conditions with value == threshold (speed exactly 0)
+    for i, op in enumerate(['le', 'ge', 'eq', 'lt', 'gt']):
+        out.append(('stop_eq_' + op, {'elems': sl, 'load': ld(c0=5), 'ctrls': [], 'stops': [{'sensor': 'tach', 'el': 3, 'op': op, 'thr': F(0)}],
+                                      'ops': sched(8, stop=0)}))
+        out.append(('stop_eq_motor_' + op, {'elems': sl, 'load': ld(c0=5), 'ctrls': [], 'stops': [{'sensor': 'tach', 'el': 0, 'op': op, 'thr': F(0)}],
+                                            'ops': sched(8, spd0=F(-1, 2), stop=0)}))
+    # lock engages while moving: initial speed against the duty cycle; duty cycle dropped to 0 mid-motion; reversed duty cycle
+    out.append(('engage_initial_speed', {'elems': sl, 'load': ld(c0=F(1, 100)), 'ctrls': [], 'stops': [], 'ops': sched(6, spd0=-3)}))
+    out.append(('engage_pwm_zero', {'elems': sl, 'load': ld(c0=F(1, 1000), c1=F(1, 1000)), 'ctrls': [[const(F(5, 200), 1, 0)]], 'stops': [], 'ops': sched(10, ctrl=0)}))
+    out.append(('engage_pwm_reversed', {'elems': sl, 'load': ld(c0=F(1, 1000)), 'ctrls': [[const(F(7, 200), 1, -1)]], 'stops': [], 'ops': sched(12, ctrl=0)}))
+    out.append(('engage_backdriven', {'elems': sl, 'load': ld(c0=F(1, 1000), c3=0, ts=F(9, 200), cs=50), 'ctrls': [], 'stops': [], 'ops': sched(12)}))
+    # release: held by an overload that disappears at t = 0.045 (step in time), motor net torque turns positive
+    out.append(('release_when_driven', {'elems': sl, 'load': ld(c0=0, ts=F(0), cs=0) | {'c0': F(0)}, 'ctrls': [], 'stops': [], 'ops': sched(4)}))
+    out.append(('hold_then_release', {'elems': sl, 'load': {'c0': F(50), 'c1': F(0), 'c2': F(0), 'c3': F(0), 'ts': F(9, 200), 'cs': F(-50)},
+                                      'ctrls': [], 'stops': [], 'ops': sched(12)}))
+    # held at the end of a run: continuation, and reset + rerun on the same and on a new Solver
+    run2 = {'op': 'run', 'sid': 1, 'dt': dt / 2, 'T': dt * 3, 'dt_unit': 'ms', 'T_unit': 'sec'}
+    out.append(('held_continue', {'elems': sl, 'load': ld(c0=5), 'ctrls': [], 'stops': [], 'ops': sched(5, more=[run2])}))
+    out.append(('held_reset_same', {'elems': sl, 'load': ld(c0=5), 'ctrls': [], 'stops': [],
+                                    'ops': sched(5, spd0=2, more=[{'op': 'reset'}, {'op': 'set_initial', 'pos': F(0), 'spd': F(2)},
+                                                                  {'op': 'run', 'sid': 1, 'dt': dt, 'T': dt * 5, 'dt_unit': 'sec', 'T_unit': 'sec'}])}))
+    out.append(('held_reset_new', {'elems': sl, 'load': ld(c0=5), 'ctrls': [], 'stops': [],
+                                   'ops': sched(5, spd0=2, more=[{'op': 'reset'}, {'op': 'set_initial', 'pos': F(0), 'spd': F(2)}, {'op': 'new_solver', 'sid': 2},
+                                                                 {'op': 'run', 'sid': 2, 'dt': dt, 'T': dt * 5, 'dt_unit': 'sec', 'T_unit': 'sec'}])}))
+    # the same loads on the non-self-locking stage and on a motor without current data: never clamped
+    out.append(('free_overload', {'elems': [motor, worm, wheel_free, out_gear], 'load': ld(c0=5), 'ctrls': [[const(F(5, 200), 1, 0)]], 'stops': [], 'ops': sched(8, spd0=-3, ctrl=0)}))
+    out.append(('nocurrent_locked', {'elems': [motor_nc, worm, wheel], 'load': ld(c0=5), 'ctrls': [[const(F(3, 200), F(3, 100), 0)]], 'stops': [], 'ops': sched(10, ctrl=0)}))
+    return out
+
+
+def _crafted_traces():
+    import_repo()
+    out = []
+    for name, inst in crafted_instances():
+        tr = solver_rec.execute('crafted_' + name, inst, None)
+        tr['family'] = 'crafted'
+        tr['presentation'] = 'SI'
+        out.append(tr)
+    return out
+
+
 def gen_traces(tier, seed):
     from concurrent.futures import ProcessPoolExecutor
     n = 260 if tier == 'quick' else 4000
     with ProcessPoolExecutor(max_workers=min(16, os.cpu_count() or 4)) as ex:
-        return list(ex.map(_one_trace, [(seed, i) for i in range(n)], chunksize=4))
+        return list(ex.map(_one_trace, [(seed, i) for i in range(n)], chunksize=4)) + _crafted_traces()
 
 
 def campaign(tier, seed):
@@ -136,6 +206,18 @@ def run_prop(pid, tier, seed, text, known=None):
             tr = c['failing_traces'].get(tid, {})
             v.violation({'clauses': mine, 'trace': tid, 'meta': c['meta'].get(tid), 'elems': tr.get('elems'), 'load': tr.get('load'),
                          'ctrls': tr.get('ctrls'), 'stops': tr.get('stops')})
+    if pid == 'C15':
+        from . import rules_drv
+        rev = rules_drv.events()
+        rres = validate('Trace_Rules', rev, shards=2)
+        v.states += rres.states; v.transitions += rres.transitions
+        v.traces += len(rev); v.evaluations += len(rev)
+        rby = {e['id']: e for e in rev}
+        for tid, fails in rres.fails.items():
+            if fails:
+                v.violation({'clauses': fails, 'boundary_case': rby[tid]})
+        v.extra['boundary_grid_events'] = len(rev)
+        v.sample({k: rev[1][k] for k in ('id', 'rule', 'where', 't', 'out')})
     if pid == 'C11':
         from . import grid_drv
         gev = grid_drv.events(tier, seed)
